@@ -399,6 +399,88 @@ def cancellable_action(doc):
     return asyncio.new_event_loop().run_until_complete(main())
 
 
+def task_outcomes(doc):
+    """bounded search: futures.create_task and communications.plum_to_kiwi_future for every way a scheduled coroutine can end
+    (value incl. falsy ones, exception, cancellation raised inside it, cancellation of a future it awaits, a value that is
+    itself a loop future to depth 2): the returned future and its communicator-side mirror end with exactly that outcome, once"""
+    import kiwipy
+    from plumpy import communications, futures
+
+    class Boom(Exception):
+        pass
+
+    async def main():
+        loop = asyncio.get_event_loop()
+        bad = []
+        inner_cancel = loop.create_future()
+
+        def mk(kind, val=None):
+            async def coro():
+                await asyncio.sleep(0)
+                if kind == 'value':
+                    return val
+                if kind == 'raise':
+                    raise Boom('x')
+                if kind == 'cancel-self':
+                    raise asyncio.CancelledError()
+                if kind == 'cancel-awaited':
+                    f = loop.create_future()
+                    loop.call_soon(f.cancel)
+                    return await f
+                if kind == 'future':
+                    f = loop.create_future()
+                    loop.call_later(0.01, f.set_result, val)
+                    return f
+            return coro
+        cases = [('value', 5), ('value', 0), ('value', None), ('value', ''), ('raise', None), ('cancel-self', None), ('cancel-awaited', None),
+                 ('future', 9)]
+        for kind, val in cases:
+            fut = futures.create_task(mk(kind, val), loop)
+            mirror = communications.plum_to_kiwi_future(fut)
+            for _ in range(60):
+                await asyncio.sleep(0.002)
+                if fut.done() and mirror.done():
+                    break
+
+            def outcome(f, wait=None):
+                if not f.done():
+                    return ('pending',)
+                if f.cancelled():
+                    return ('cancelled',)
+                e = f.exception()
+                if e is not None:
+                    return ('raised', type(e).__name__)
+                return ('value', f.result())
+            got, got_m = outcome(fut), outcome(mirror)
+            if kind == 'value':
+                want = want_m = ('value', val)
+            elif kind == 'raise':
+                want = want_m = ('raised', 'Boom')
+            elif kind in ('cancel-self', 'cancel-awaited'):
+                want = want_m = ('cancelled',)
+            else:
+                want = None
+                if got[0] != 'value' or not asyncio.isfuture(got[1]):
+                    bad.append(f'create_task of a coroutine returning a loop future: {got}')
+                # the mirror of a future that resolves to a loop future resolves to the mirror of that one
+                if got_m[0] != 'value' or not isinstance(got_m[1], kiwipy.Future):
+                    bad.append(f'mirror of a future resolving to a future: {got_m}')
+                else:
+                    for _ in range(30):
+                        await asyncio.sleep(0.002)
+                    if outcome(got_m[1]) != ('value', val):
+                        bad.append(f'mirror of the inner future ends {outcome(got_m[1])}, expected the value {val!r}')
+                continue
+            if got != want:
+                bad.append(f'create_task of a coroutine that ends with {kind}{"" if val is None and kind != "value" else " " + repr(val)}: the returned '
+                           f'future ends {got}, expected {want}')
+            if got_m != want_m:
+                bad.append(f'communicator-side mirror for a coroutine that ends with {kind}: {got_m}, expected {want_m}')
+        return '; '.join(bad[:4]) or None
+
+    return _run(main())
+
+
 def unwrap_kiwi(doc):
     """unwrap_kiwi_future over chains of depth 1..3, every outcome at every level, every completion order"""
     import itertools
@@ -500,6 +582,24 @@ def persister_history(doc):
                             if got_status != want_status:
                                 return (f'{name} persister after {op}({pid!r}, {tag!r}): load({q!r}, {t!r}) returns the snapshot with status '
                                         f'{got_status!r}; the most recent save of that key recorded {want_status!r}')
+                # a save that FAILS (the process holds something this persister cannot store) leaves the store as it was: the snapshot
+                # saved before under that key is still the one loaded, and the listing still works
+                key = sorted(model, key=repr)[0]
+                procs[key[0]].set_status(lambda: 'not storable everywhere')
+                for name, p in pers.items():
+                    try:
+                        p.save_checkpoint(procs[key[0]], key[1])
+                        continue            # this persister can store it: nothing to check here
+                    except Exception:  # noqa
+                        pass
+                    try:
+                        got = sorted(((c.pid, c.tag) for c in p.get_checkpoints()), key=repr)
+                        st = p.load_checkpoint(*key).get('_status')
+                    except Exception as e:  # noqa
+                        return (f'{name} persister: after a save of {key!r} that failed, the store is damaged: {type(e).__name__} on listing / '
+                                f'loading the snapshot saved before')
+                    if got != sorted(model, key=repr) or st != model[key]:
+                        return f'{name} persister: after a save of {key!r} that failed the store lists {got} and loads status {st!r} for that key'
             return None
         finally:
             shutil.rmtree(tmp, ignore_errors=True)
@@ -1988,6 +2088,25 @@ def remote_equals_direct(doc):
         if got != ('reply', True) or not a.paused:
             bad.append(f'pause sent from another thread while the loop is idle: {got}, paused={a.paused} (a direct pause() returns True and pauses)')
         ta.cancel()
+        # the same through plumpy's own wrapper that schedules every subscriber on the process's loop (LoopCommunicator): broadcasts
+        # reach the wrapped subscribers with keyword arguments
+        from plumpy.communications import LoopCommunicator
+        local = Comm()
+        try:
+            a = Three(communicator=LoopCommunicator(local))
+            b = Three()
+            await a.step(), await b.step()
+            await a.step(), await b.step()          # WAITING
+            for subject, body, direct in (('pause', builder.pause('all hold'), lambda p: p.pause('all hold')),
+                                          ('play', None, lambda p: p.play()),
+                                          ('kill', builder.kill('all stop'), lambda p: p.kill('all stop'))):
+                local.broadcast_send(body, subject=subject, sender='someone')
+                direct(b)
+                await _settle(20)
+                if snapshot(a) != snapshot(b):
+                    bad.append(f'broadcast {subject} through a LoopCommunicator: process {snapshot(a)}, directly controlled twin {snapshot(b)}')
+        except Exception as e:  # noqa
+            bad.append(f'a process controlled through LoopCommunicator(LocalCommunicator): {type(e).__name__}: {e}')
         # unknown intent is an error and does nothing
         comm = Comm()
         a = Three(communicator=comm)
@@ -2442,6 +2561,12 @@ def control_histories(doc):
                                                                      f'steps run {proc.trace[obs["trace_len_at_kill"]:]}'))
                     if 'C02' in want and proc.state.name == 'KILLED' and 'kill' in requests and 'cancel' not in requests and proc.killed_msg().get('message') != 'enough':
                         probs.append(('C02', 'kill-text', f'killed_msg() reports the text {proc.killed_msg().get("message")!r}, kill() was given \'enough\''))
+                    if 'C02' in want and proc.has_terminated() and obs['task'] is not None:
+                        # "step_until_terminated() returns" -- for every placement of the requests (kill while paused included)
+                        await _settle(20)
+                        if not obs['task'].done():
+                            probs.append(('C02', 'stepping-never-returns', f'the process is {proc.state.name} but step_until_terminated() '
+                                                                          f'has not returned (paused={proc.paused})'))
                     # ---- C03
                     if 'C03' in want and errs:
                         probs.append(('C03', 'loop-error', f'reported to the event loop: {errs[:2]}'))
